@@ -90,11 +90,19 @@ func (p Precompile) Run(evm *vm.EVM, contract *vm.Contract, readOnly bool) (bz [
 		return nil, err
 	}
 
+	// a transaction method performs several keeper writes; run them on a cached context and
+	// only write it back on success, so that a call which reports failure (success flag false)
+	// leaves no partial state behind.
+	cachedCtx, writeFunc := ctx.CacheContext()
+
 	switch method.Name {
 	// transactions
 	case MethodDepositLST, MethodWithdrawLST,
 		MethodDepositNST, MethodWithdrawNST:
-		bz, err = p.DepositOrWithdraw(ctx, evm.Origin, contract, stateDB, method, args)
+		bz, err = p.DepositOrWithdraw(cachedCtx, evm.Origin, contract, stateDB, method, args)
+		if err == nil {
+			writeFunc()
+		}
 		if err != nil {
 			ctx.Logger().Error("internal error when calling assets precompile", "module", "assets precompile", "method", method.Name, "err", err)
 			// for failed cases we expect it returns bool value instead of error
@@ -104,19 +112,28 @@ func (p Precompile) Run(evm *vm.EVM, contract *vm.Contract, readOnly bool) (bz [
 			bz, err = method.Outputs.Pack(false, new(big.Int))
 		}
 	case MethodRegisterOrUpdateClientChain:
-		bz, err = p.RegisterOrUpdateClientChain(ctx, contract, method, args)
+		bz, err = p.RegisterOrUpdateClientChain(cachedCtx, contract, method, args)
+		if err == nil {
+			writeFunc()
+		}
 		if err != nil {
 			ctx.Logger().Error("internal error when calling assets precompile", "module", "assets precompile", "method", method.Name, "err", err)
 			bz, err = method.Outputs.Pack(false, false)
 		}
 	case MethodRegisterToken:
-		bz, err = p.RegisterToken(ctx, contract, method, args)
+		bz, err = p.RegisterToken(cachedCtx, contract, method, args)
+		if err == nil {
+			writeFunc()
+		}
 		if err != nil {
 			ctx.Logger().Error("internal error when calling assets precompile", "module", "assets precompile", "method", method.Name, "err", err)
 			bz, err = method.Outputs.Pack(false)
 		}
 	case MethodUpdateToken:
-		bz, err = p.UpdateToken(ctx, contract, method, args)
+		bz, err = p.UpdateToken(cachedCtx, contract, method, args)
+		if err == nil {
+			writeFunc()
+		}
 		if err != nil {
 			ctx.Logger().Error("internal error when calling assets precompile", "module", "assets precompile", "method", method.Name, "err", err)
 			bz, err = method.Outputs.Pack(false)
